@@ -229,7 +229,10 @@ static void unit_fn(void *arg)
                 /* (an eventual setter that is cancelled may never set: not cancelled) */
                 if (c->used && !c->cancelled && c->flavor != F_EVSET) {
                     c->cancelled = 1;
-                    ABT_OK(ABT_thread_cancel(c->th));
+                    if (c->is_task && (a & 8))
+                        ABT_OK(ABT_task_cancel(c->th));
+                    else
+                        ABT_OK(ABT_thread_cancel(c->th));
                 }
                 break;
             case O_SETSPEC:
